@@ -66,6 +66,7 @@ class World:
         self.view = {}  # bucket id -> {"meta":..., "events":[(id,ts,dur,data)...] sorted by id}
         self.stale = {}  # bucket id -> Bucket handle of a bucket deleted since
         self.last_obj = None
+        self.hb_obj = None
         self.others = []
         self.nother = 0
 
@@ -471,6 +472,11 @@ class World:
         if bk is None:
             return {"skipped": "no bucket"}
         hb = mk_event(s["ev"])
+        if s.get("hb_reuse") is not None and self.hb_obj is not None and self.hb_obj[0] == s["hb_reuse"]:
+            hb = self.hb_obj[1]
+            self.probes["heartbeat_object_fed_to_two_buckets"] += 1
+        if s.get("hb_tag") is not None:
+            self.hb_obj = (s["hb_tag"], hb)
         last = bk.get(limit=1)
         if last:
             merged = heartbeat_merge(last[0], hb, s["pulse"])
